@@ -15,7 +15,6 @@ impl Worker {
         let mut child = Command::new("node")
             .arg("--experimental-vm-modules")
             .arg("--no-warnings")
-            .arg("--stack-size=4000")
             .arg(format!("{}/node/worker.js", crate::engine::VERIF_ROOT))
             .stdin(Stdio::piped())
             .stdout(Stdio::piped())
